@@ -464,6 +464,12 @@ func c10Check(c *ctx, prog string, d interface{}, in string, res goResult) {
 		return
 	}
 	if res.err != nil {
+		if berr == nil && nondeterministic(prog) {
+			// $random/$shuffle/$now/$millis: two evaluations may legitimately take different branches
+			c.rep.Skipped++
+			c.rep.SkipReasons["Eval/EvalBytes parity of a program with sanctioned variation ($random, $shuffle, $now, $millis)"]++
+			return
+		}
 		if berr == nil {
 			c.disagree(Disagreement{Kind: "evalbytes-succeeds-where-eval-fails", Prog: prog, Input: d, InputS: in, Go: "EvalBytes: " + trunc(string(viaBytes), 200), Model: "Eval: " + res.outcome})
 		}
@@ -487,6 +493,11 @@ func c10Check(c *ctx, prog string, d interface{}, in string, res goResult) {
 	if berr != nil && inherentlyVaries(prog, d) {
 		c.rep.Skipped++
 		c.rep.SkipReasons["outcome depends on map iteration order (fresh evaluations differ among themselves)"]++
+		return
+	}
+	if berr != nil && nondeterministic(prog) {
+		c.rep.Skipped++
+		c.rep.SkipReasons["Eval/EvalBytes parity of a program with sanctioned variation ($random, $shuffle, $now, $millis)"]++
 		return
 	}
 	if berr != nil {
